@@ -495,6 +495,89 @@ func sweep(r *rand.Rand) []caseIn {
 	return out
 }
 
+// ---- teardown histories: the order (and repetition) of the lifecycle calls on the chain ----
+
+var tdPerms = [][]int{{0, 1, 2}, {2, 0, 1}, {0, 2, 1}, {1, 2, 0}, {2, 1, 0}, {1, 0, 2}}
+
+// a history with exactly one Close at any position and every stream unbound at least once, some
+// streams twice (before and/or after the Close)
+func genTeardown(r *rand.Rand, perm int) []int {
+	td := append([]int{}, tdPerms[perm%len(tdPerms)]...)
+	for r.Intn(3) == 0 && len(td) < 6 {
+		at := r.Intn(len(td) + 1)
+		td = append(td[:at], append([]int{r.Intn(2)}, td[at:]...)...)
+	}
+
+	return td
+}
+
+func hasMock(ms []memberIn) bool {
+	for _, m := range flatten(ms) {
+		if m.Kind == 15 {
+			return true
+		}
+	}
+
+	return false
+}
+
+// give an already generated case a teardown history other than Unbind, Unbind, Close; the
+// delivery of the calls is observed on instrumented members, so the chain gets one if it has none
+func withTeardown(r *rand.Rand, in caseIn, perm int) caseIn {
+	in.Teardown = genTeardown(r, perm)
+	if !hasMock(in.Members) {
+		in.Members = append(append([]memberIn{}, in.Members...), genMember(r, 15, 0))
+	}
+
+	return in
+}
+
+// a short data path, a chain with instrumented members at every nesting level (Close errors plain,
+// wrapped, nil) between library members, and a teardown history from the whole family
+func genTeardownCase(r *rand.Rand, i int) caseIn {
+	in := genCase(r, "teardown")
+	if len(in.Writes) > 2 {
+		in.Writes = in.Writes[:2]
+	}
+	if len(in.Reads) > 1 {
+		in.Reads = in.Reads[:1]
+	}
+	if len(in.CReads) > 1 {
+		in.CReads = in.CReads[:1]
+	}
+	if len(in.CWrites) > 1 {
+		in.CWrites = in.CWrites[:1]
+	}
+	in.Nacks = nil
+	lib := func() int { return []int{0, 1, 2, 3, 4, 5, 6, 7, 8, 10, 11, 12, 13, 14}[r.Intn(14)] }
+	for k := range in.Members {
+		if in.Members[k].Kind != 9 && in.Members[k].Kind != 16 && r.Intn(3) == 0 {
+			in.Members[k] = genMember(r, 15, 0)
+		}
+	}
+	insert := func(m memberIn) {
+		at := r.Intn(len(in.Members) + 1)
+		in.Members = append(in.Members[:at], append([]memberIn{m}, in.Members[at:]...)...)
+	}
+	insert(genMember(r, 15, 0))
+	if r.Intn(2) == 0 {
+		nested := memberIn{Kind: 16, Sub: []memberIn{genMember(r, 15, 1), genMember(r, lib(), 1)}}
+		if r.Intn(2) == 0 {
+			nested.Sub = append(nested.Sub, memberIn{Kind: 16, Sub: []memberIn{genMember(r, lib(), 2), genMember(r, 15, 2)}})
+		}
+		insert(nested)
+	}
+	if i%9 == 8 { // nothing but instrumented members, each with its own Close error
+		in.Members = nil
+		for k, n := 0, 1+r.Intn(5); k < n; k++ {
+			in.Members = append(in.Members, memberIn{Kind: 15, CErr: []int{0, k + 1, -(k + 1)}[r.Intn(3)]})
+		}
+	}
+	in.Teardown = genTeardown(r, i)
+
+	return in
+}
+
 func deepCopy(in caseIn) caseIn {
 	out := in
 	out.Writes = make([]writeIn, len(in.Writes))
@@ -553,6 +636,24 @@ func main() {
 			}
 		}
 	}
+	if o.Replay == "" {
+		// teardown histories, drawn from a generator of their own after everything else (the cases
+		// above stay what they were): about half of the generated cases are torn down in another
+		// order than Unbind, Unbind, Close; then the dedicated teardown cases
+		r2 := rand.New(rand.NewSource(o.Seed*7919 + 17)) //nolint:gosec
+		for i := range ins {
+			if buckets[i][0] == "corpus" || buckets[i][0] == "empty" {
+				continue
+			}
+			if k := r2.Intn(12); k >= 5 {
+				ins[i] = withTeardown(r2, ins[i], k-5)
+			}
+		}
+		nt := o.Scale(90, 3000)
+		for i := 0; i < nt; i++ {
+			add(genTeardownCase(r2, i), "teardown")
+		}
+	}
 	results := make([]*result, len(ins))
 	var wg sync.WaitGroup
 	sem := make(chan struct{}, 2*runtime.NumCPU())
@@ -584,6 +685,8 @@ func main() {
 	cq.Write(o, "one case = one chain (0..8 members drawn from all library factories incl. function-valued options, mock members and nested chains) with RTP writes "+
 		"(legacy padding form and payloads above 1460 bytes included), RTP reads, RTCP reads, RTCP compound writes against a scripted transport, "+
 		"every handed-in object re-read after the call and after Close; 'inject' cases tap a responder's retransmissions; "+
+		"then a teardown history (UnbindLocalStream / UnbindRemoteStream / Close in any order, streams possibly unbound twice) with the "+
+		"instrumented members' counters snapshotted after every call; "+
 		"non-trivial = at least one member and one operation",
 		[]*cq.Set{set}, extra, fails)
 	_ = os.Stdout
@@ -710,6 +813,35 @@ func shapeBuckets(res *result) []string {
 	}
 	if !res.closeNil {
 		put("close-error")
+	}
+	td := in.teardown()
+	closeAt, nOps := -1, map[int]int{}
+	for i, o := range td {
+		if o == 2 && closeAt < 0 {
+			closeAt = i
+		}
+		nOps[o]++
+	}
+	switch {
+	case len(td) == 3 && td[0] == 0 && td[1] == 1 && td[2] == 2:
+		put("td:unbind-unbind-close")
+	case closeAt == 0:
+		put("td:close-first")
+	case closeAt == len(td)-1:
+		put("td:close-last-other-order")
+	default:
+		put("td:close-between-unbinds")
+	}
+	if closeAt < len(td)-1 {
+		put("td:unbind-after-close")
+	}
+	if nOps[0] > 1 || nOps[1] > 1 {
+		put("td:stream-unbound-twice")
+	}
+	if len(res.ctrs) > 0 {
+		put("td:observed-on-" + []string{"", "1", "2", "3+"}[min(len(res.ctrs), 3)] + "-instrumented")
+	} else {
+		put("td:no-instrumented-member")
 	}
 
 	return out
